@@ -55,7 +55,9 @@ pub fn rc_round_trip() -> (i64, u32, u32) {
 /// Ptr variant over a static
 pub fn static_round_trip() -> i64 {
     let a = static_reference!(i64, 5);
-    let d: Reference<dyn Cellish> = to_dyn!(Cellish, a.clone());
+    // the argument is an expression with a side effect: it denotes one Reference
+    let mut slot = Some(a.clone());
+    let d: Reference<dyn Cellish> = to_dyn!(Cellish, slot.take().unwrap());
     d.borrow_mut().write(11);
     let seen = a.borrow().read();
     seen
